@@ -236,7 +236,8 @@ impl World {
         }
         let pre = match self.observe_all() {
             Ok(p) => p,
-            Err(fails) => {
+            Err(mut fails) => {
+                fails.retain(|x| x.clause != "C00.slot");
                 return StepResult { failures: fails, fatal: true, outcome: Outcome::Ok(Ret::Unit) };
             }
         };
@@ -619,6 +620,15 @@ impl World {
         let post = match self.observe_all() {
             Ok(p) => p,
             Err(mut fails) => {
+                // a handle that is not the target of this operation can no longer be read: isolation is broken
+                let slot: Option<usize> = fails.iter().find(|x| x.clause == "C00.slot").and_then(|x| x.detail.parse().ok());
+                fails.retain(|x| x.clause != "C00.slot");
+                if let Some(i) = slot {
+                    if !targets.contains(&(i as Slot)) {
+                        let d = fails.first().map(|x| x.detail.clone()).unwrap_or_default();
+                        fails.push(Failure::new("C02.unreadable_other_handle", format!("after {} on another handle: {d}", op.name())));
+                    }
+                }
                 f.append(&mut fails);
                 self.alias_context(&mut f, ctx, has_size_arg, op);
                 return StepResult { failures: f, fatal: true, outcome: real };
